@@ -41,6 +41,7 @@ type Snapshot struct {
 // channel and returns a new channel containing only those date values.The
 // original snapshots channel can no longer be directly used afterward.
 func SnapshotsAsDates(snapshots <-chan *Snapshot) <-chan time.Time {
+	helper.VerifStage("Label:Date", 0, nil, nil)
 	return helper.Map(snapshots, func(snapshot *Snapshot) time.Time {
 		return snapshot.Date
 	})
@@ -50,6 +51,7 @@ func SnapshotsAsDates(snapshots <-chan *Snapshot) <-chan time.Time {
 // channel and returns a new channel containing only those open values.The
 // original snapshots channel can no longer be directly used afterward.
 func SnapshotsAsOpenings(snapshots <-chan *Snapshot) <-chan float64 {
+	helper.VerifStage("Label:Open", 0, nil, nil)
 	return helper.Map(snapshots, func(snapshot *Snapshot) float64 {
 		return snapshot.Open
 	})
@@ -59,6 +61,7 @@ func SnapshotsAsOpenings(snapshots <-chan *Snapshot) <-chan float64 {
 // channel and returns a new channel containing only those high values.The
 // original snapshots channel can no longer be directly used afterward.
 func SnapshotsAsHighs(snapshots <-chan *Snapshot) <-chan float64 {
+	helper.VerifStage("Label:High", 0, nil, nil)
 	return helper.Map(snapshots, func(snapshot *Snapshot) float64 {
 		return snapshot.High
 	})
@@ -68,6 +71,7 @@ func SnapshotsAsHighs(snapshots <-chan *Snapshot) <-chan float64 {
 // channel and returns a new channel containing only those low values.The
 // original snapshots channel can no longer be directly used afterward.
 func SnapshotsAsLows(snapshots <-chan *Snapshot) <-chan float64 {
+	helper.VerifStage("Label:Low", 0, nil, nil)
 	return helper.Map(snapshots, func(snapshot *Snapshot) float64 {
 		return snapshot.Low
 	})
@@ -77,6 +81,7 @@ func SnapshotsAsLows(snapshots <-chan *Snapshot) <-chan float64 {
 // channel and returns a new channel containing only those close values.The
 // original snapshots channel can no longer be directly used afterward.
 func SnapshotsAsClosings(snapshots <-chan *Snapshot) <-chan float64 {
+	helper.VerifStage("Label:Close", 0, nil, nil)
 	return helper.Map(snapshots, func(snapshot *Snapshot) float64 {
 		return snapshot.Close
 	})
@@ -86,6 +91,7 @@ func SnapshotsAsClosings(snapshots <-chan *Snapshot) <-chan float64 {
 // channel and returns a new channel containing only those volume values.The
 // original snapshots channel can no longer be directly used afterward.
 func SnapshotsAsVolumes(snapshots <-chan *Snapshot) <-chan float64 {
+	helper.VerifStage("Label:Volume", 0, nil, nil)
 	return helper.Map(snapshots, func(snapshot *Snapshot) float64 {
 		return snapshot.Volume
 	})
